@@ -26,9 +26,12 @@ SHAPES = {
     # integer literals in the decorators (the dashboard still holds doubles), and a timed state whose next_state is itself
     "intdur": [("a", 1, "b", True), ("b", 2, None, False)],
     "selfloop": [("p", 0.5, "p", True)],
+    # states made by applying the decorator to a helper function: the attribute name differs from the function's name
+    "aliased": [("hold", 0.5, "rel", True), ("rel", 0.25, None, False)],
 }
+FNAMES = {"aliased": {"hold": "hold_impl", "rel": "wrapper"}}
 # "inherit": the chain's states live in a base class, the concrete mode only adds the last one
-TARGETS = {"intdur": ["a", "b"], "selfloop": ["p"], "inherit": ["s1", "s2"], "chain": ["s1", "s2"], "loop": ["a", "b"], "tchain": ["b", "a"], "branch": ["l", "r"]}
+TARGETS = {"aliased": ["rel", "hold"], "intdur": ["a", "b"], "selfloop": ["p"], "inherit": ["s1", "s2"], "chain": ["s1", "s2"], "loop": ["a", "b"], "tchain": ["b", "a"], "branch": ["l", "r"]}
 _ID = [0]
 
 
@@ -80,6 +83,10 @@ def build_mode(shape, variant, H, name):
         else:
             deco = f"@timed_state(duration={dur!r}, next_state={nxt!r}, first={first!r})"
         fdef = f"    {deco}\n    def {sn}(self, {', '.join(perm)}):\n        H.call(self, {sn!r}, tm, state_tm, initial_call)\n"
+        if shape in FNAMES:
+            fn = FNAMES[shape][sn]
+            fdef = (f"    def {fn}(self, {', '.join(perm)}):\n        H.call(self, {sn!r}, tm, state_tm, initial_call)\n"
+                    f"    {sn} = {deco[1:]}({fn})\n")
         if shape == "inherit" and i < 2:
             # defined on the parent class
             src = src.replace("class Parent(Base):\n    pass\n", "class Parent(Base):\n" + fdef) if "    pass\n" in src else src.replace("class M(Parent):", fdef + "class M(Parent):")
@@ -131,7 +138,7 @@ def run(c, job):
                     durs[sn] = m["dur"]
                 else:
                     d = c.real(f"dur{p}_{sn}", 0, 100)
-                    table.putNumber(f"{name}\\{sn}_duration", d)
+                    table.putNumber(f"{name}\\{FNAMES.get(shape, {}).get(sn, sn)}_duration", d)
                     durs[sn] = d
         mode.on_enable()
         H.periods.append(durs)
@@ -272,11 +279,11 @@ class C15(Spec):
         if tier == "quick":
             return [mkjob("intdur", 5, 0, variant=1), mkjob("selfloop", 6, 1, variant=2), mkjob("selfloop", 3, 0, periods=2), mkjob("inherit", 5, 1, variant=2), mkjob("inherit", 3, 1, periods=2, variant=3), mkjob("chain", 5, 2), mkjob("loop", 5, 1), mkjob("tchain", 5, 1), mkjob("branch", 4, 2),
                     mkjob("chain", 3, 2, periods=2, variant=1), mkjob("loop", 3, 1, periods=2, variant=2),
-                    mkjob("tchain", 3, 1, periods=2, variant=3)]
+                    mkjob("tchain", 3, 1, periods=2, variant=3), mkjob("aliased", 5, 1, variant=1), mkjob("aliased", 3, 0, periods=2, variant=2)]
         return [mkjob("intdur", 7, 1, variant=1), mkjob("intdur", 4, 1, periods=2), mkjob("selfloop", 8, 2, variant=2), mkjob("selfloop", 4, 1, periods=3),
                 mkjob("inherit", 7, 2, variant=1), mkjob("inherit", 4, 2, periods=3, variant=4), mkjob("chain", 7, 2, variant=1), mkjob("loop", 8, 2, variant=2), mkjob("tchain", 8, 1, variant=3), mkjob("branch", 6, 2, variant=4),
                 mkjob("chain", 4, 2, periods=3, variant=5), mkjob("loop", 4, 2, periods=2, variant=0), mkjob("tchain", 4, 2, periods=3, variant=1),
-                mkjob("branch", 4, 2, periods=2, variant=2)]
+                mkjob("branch", 4, 2, periods=2, variant=2), mkjob("aliased", 7, 2, variant=1), mkjob("aliased", 4, 1, periods=3, variant=2)]
 
     def bounds(self, tier):
         return dict(jobs=[dict(shape=j["shape"], **j["cfg"]) for j in self.jobs(tier)], durations="symbolic reals in [0,100] written to the dashboard before every on_enable",
